@@ -290,7 +290,7 @@ def r5_sources(rep, ctx):
         t = res.term(r.value)
         for a in alternatives(t):
             ok = a[0] == "call" and a[1] == ("field", "_MakeStr")
-            fed = ok and any(s == ("field", "_category_to_unit_and_exps") for s in walk(a)) or (ok and _loop_feeds(fn, "_category_to_unit_and_exps"))
+            fed = ok and any(s == ("field", "_category_to_unit_and_exps") for s in walk(a)) or (ok and _loop_feeds(fn, "_category_to_unit_and_exps")) or (ok and _iterates_map(fn.node))
             rep.check(bool(ok and fed), "C20.R5", "GetUnitName:%s" % norm(ast.unparse(r))[:60],
                       "the unit name is _MakeStr over pairs gathered from the composing map",
                       "GetUnitName can return %s, which is not built from this quantity's composing map (a memo keyed by less than the map, or a shortcut)" % show(a, 80), node=r, fn=fn)
@@ -303,6 +303,8 @@ def r5_sources(rep, ctx):
             for st in own_statements(lp):
                 if isinstance(st, ast.Assign) and isinstance(st.targets[0], ast.Subscript) and any(isinstance(x, ast.Name) and x.id == expv for x in ast.walk(st.value)):
                     uses_exp = True
+    if not uses_exp:
+        uses_exp = _uses_exponent_of_map_entries(fn.node) and any(_accumulating_helper(m, fn, c) for c in ast.walk(fn.node))
     rep.check(uses_exp, "C20.R5", "GetUnitName:accumulates-exponents", "each entry's exponent is accumulated per unit name", "GetUnitName does not accumulate the exponents of the composing map", fn=fn)
     # derived branch of __init__: _category, _quantity_type, _unit come from the builders fed by the map
     init = m.method("Quantity", "__init__")
@@ -327,16 +329,21 @@ def r5_sources(rep, ctx):
     # joined exponents: one accumulator keyed by unit over *all* entries of the composing map
     je = m.method("Quantity", "GetComposingUnitsJoiningExponents")
     loops_ = [lp for lp in own_statements(je.node) if isinstance(lp, ast.For) and any(isinstance(x, ast.Attribute) and x.attr == "_category_to_unit_and_exps" for x in ast.walk(lp.iter))]
-    if len(loops_) != 1:
+    if len(loops_) != 1 and _uses_exponent_of_map_entries(je.node) and any(_accumulating_helper(m, je, c) for c in ast.walk(je.node)):
+        rep.ok("C20.R5", "joined-exponents:accumulate-by-unit", "exponents are accumulated per unit by a helper fed with every (unit, exponent) entry of the map", fn=je)
+        loops_ = None
+    elif len(loops_) != 1:
         raise AnalysisError("Quantity.GetComposingUnitsJoiningExponents: the accumulation loop over the composing map was not found (another joining algorithm: the checker cannot tell whether non-adjacent repeats of a unit are joined)")
-    lp_ = loops_[0]
-    names_ = [x.id for x in ast.walk(lp_.target) if isinstance(x, ast.Name)]
-    unit_v, exp_v = names_[-2], names_[-1]
     acc_ok = False
-    for st in own_statements(lp_):
-        if isinstance(st, ast.Assign) and isinstance(st.targets[0], ast.Subscript) and ast.unparse(st.targets[0].slice) == unit_v and any(isinstance(x, ast.Name) and x.id == exp_v for x in ast.walk(st.value)):
-            acc_ok = True
-    rep.check(acc_ok, "C20.R5", "joined-exponents:accumulate-by-unit", "exponents are accumulated in a mapping keyed by the unit over all entries", "the joined exponents are not accumulated per unit", fn=je)
+    if loops_:
+        lp_ = loops_[0]
+        names_ = [x.id for x in ast.walk(lp_.target) if isinstance(x, ast.Name)]
+        unit_v, exp_v = names_[-2], names_[-1]
+        for st in own_statements(lp_):
+            if isinstance(st, ast.Assign) and isinstance(st.targets[0], ast.Subscript) and ast.unparse(st.targets[0].slice) == unit_v and any(isinstance(x, ast.Name) and x.id == exp_v for x in ast.walk(st.value)):
+                acc_ok = True
+    if loops_ is not None:
+        rep.check(acc_ok, "C20.R5", "joined-exponents:accumulate-by-unit", "exponents are accumulated in a mapping keyed by the unit over all entries", "the joined exponents are not accumulated per unit", fn=je)
     # the unit builder iterates the joined composing units of this quantity
     ub = m.method("Quantity", "_CreateUnitsWithJoinedExponentsString")
     loops = [lp for lp in own_statements(ub.node) if isinstance(lp, ast.For)]
@@ -365,4 +372,50 @@ def _filled_from_map(fn, name):
                 if isinstance(st, ast.Assign) and isinstance(st.targets[0], ast.Subscript) and isinstance(st.targets[0].value, ast.Name) \
                         and st.targets[0].value.id == name and any(isinstance(x, ast.Name) and x.id == expv for x in ast.walk(st.value)):
                     return True
+    return False
+
+
+def _iterates_map(node):
+    """Does this function / expression iterate the composing map (loop or comprehension)?"""
+    for x in ast.walk(node):
+        it = None
+        if isinstance(x, ast.For):
+            it = x.iter
+        elif isinstance(x, ast.comprehension):
+            it = x.iter
+        if it is not None and any(isinstance(y, ast.Attribute) and y.attr == "_category_to_unit_and_exps" for y in ast.walk(it)):
+            return True
+    return False
+
+
+def _uses_exponent_of_map_entries(node):
+    """A loop/comprehension over the map's items that binds (.., (unit, exp)) and uses exp."""
+    for x in ast.walk(node):
+        tgt, body = None, []
+        if isinstance(x, ast.For) and any(isinstance(y, ast.Attribute) and y.attr == "_category_to_unit_and_exps" for y in ast.walk(x.iter)):
+            tgt, body = x.target, x.body
+        elif isinstance(x, (ast.GeneratorExp, ast.ListComp)) and any(isinstance(y, ast.Attribute) and y.attr == "_category_to_unit_and_exps" for g in x.generators for y in ast.walk(g.iter)):
+            tgt, body = x.generators[0].target, [x.elt]
+        if tgt is None:
+            continue
+        names = [y.id for y in ast.walk(tgt) if isinstance(y, ast.Name)]
+        if names and any(isinstance(y, ast.Name) and y.id == names[-1] and isinstance(y.ctx, ast.Load) for b in body for y in ast.walk(b)):
+            return True
+    return False
+
+
+def _accumulating_helper(m, fn, call):
+    """`self.<new helper>(<pairs>)` where the helper sums the second component per first component."""
+    if not (isinstance(call, ast.Call) and isinstance(call.func, ast.Attribute) and isinstance(call.func.value, ast.Name)):
+        return False
+    g = m.lookup(fn.cls, call.func.attr) if fn.cls else None
+    if g is None:
+        return False
+    for lp in own_statements(g.node):
+        if isinstance(lp, ast.For):
+            names = [y.id for y in ast.walk(lp.target) if isinstance(y, ast.Name)]
+            if len(names) >= 2:
+                for st in own_statements(lp):
+                    if isinstance(st, ast.Assign) and isinstance(st.targets[0], ast.Subscript) and ast.unparse(st.targets[0].slice) == names[0] and any(isinstance(y, ast.Name) and y.id == names[-1] for y in ast.walk(st.value)):
+                        return True
     return False
